@@ -143,9 +143,187 @@ class SpacingPairBody(FragmentContract):
                 ('y-updated-exactly', O.forall(y0.shape, lambda p, q, t: O.eq(y1[p, q, t], exp(p, q, t))))]
 
 
+class PairwiseExamplePairs(FragmentContract):
+    """C18 (pair enumeration of pairwise_annotations): for the annotation list of one example (any length m),
+    the two nested loops add to y[a, b] exactly the number of pairs of list positions p < q < m with
+    (list[p], list[q]) == (a, b) - and, iff symmetric and the two annotations differ, the mirrored pair -
+    every unordered pair once, no pair twice, none skipped (including the last element and m in {0, 1})."""
+    qualname = 'tangermeme.annotate.pairwise_annotations'
+    props = ('C18',)
+    key = 'tangermeme.annotate.pairwise_annotations#example-pairs'
+    stmt_block = ('for i, idx0 in enumerate(annotations', 1)
+    OUTER, INNER = 4, 5
+
+    def configs(self):
+        return [dict(symmetric=s) for s in (True, False)]
+
+    def make_env(self, cfg, A):
+        from vf.values import StackList
+        nA = A.dim('nA', 1)
+        m = A.dim('m', 0)
+        ann = A.tensor('ann', 1, 'int', shape=[m])
+        A.assume(O.forall_hyp([m], lambda p: And(ann[p] >= 0, ann[p] < nA)))
+        y = A.tensor('y', 2, 'int', lib='np', shape=[nA, nA])
+        return dict(y=y, annotations=StackList(m, [ann]), symmetric=cfg['symmetric'], _ann=ann, _m=m)
+
+    # ---- specification
+    @staticmethod
+    def inc(env, p, q, a, b):
+        ann = env['_ann']
+        v = ite(And(O.eq(ann.elem(p), a), O.eq(ann.elem(q), b)), 1, 0)
+        if env['symmetric'] is True:
+            v = v + ite(And(O.ne(ann.elem(p), ann.elem(q)), O.eq(ann.elem(p), b), O.eq(ann.elem(q), a)), 1, 0)
+        return v
+
+    @classmethod
+    def row_sum(cls, env, p, hi, *ix):
+        """pairs (p, q), p < q < hi"""
+        return Sum(p + 1, hi, lambda q: cls.inc(env, p, q, *ix))
+
+    @classmethod
+    def pair_sum(cls, env, n, *ix):
+        """pairs (p, q) with p < n, p < q < m"""
+        return Sum(0, n, lambda p: cls.row_sum(env, p, env['_m'], *ix))
+
+    def loops(self):
+        from vf.lib import sum_step_lemmas
+        cls = type(self)
+
+        def stepped(E, goal):
+            if E.where == 'assume':
+                return goal
+            g = O.to_z3(goal)
+            return Implies(And(*sum_step_lemmas(g)), g)
+
+        def outer(E, fr):
+            env = fr.env
+            y, y0 = env['y'], E.old.y
+            return [('y = entry + pairs (p, q), p < it', E.forall(y.shape, lambda *ix: stepped(E, O.eq(y[ix], y0[ix] + cls.pair_sum(env, E.it, *ix)))))]
+
+        def inner(E, fr):
+            env = fr.env
+            y, y0 = env['y'], E.old.y
+            i = env['i']
+            return [('y = entry + pairs (i, q), i < q <= i + it', E.forall(y.shape, lambda *ix: stepped(E, O.eq(y[ix], y0[ix] + cls.row_sum(env, i, i + 1 + E.it, *ix)))))]
+        return {self.OUTER: LoopSpec(outer), self.INNER: LoopSpec(inner)}
+
+    def replay_fragment(self, cfg, st):
+        """the list as the rows of one example of a table, real whole function, against brute-force pair counting"""
+        import torch
+        from tangermeme.annotate import pairwise_annotations
+        m = int(st.get('_m') or 0)
+        ann = [abs(int(v)) % 5 for v in (st.get('_ann') or [])][:m]
+        if m < 1 or len(ann) != m:
+            return []
+        nA = max(ann) + 1
+        X = torch.tensor([[0, v] for v in ann], dtype=torch.int64)
+        try:
+            y = pairwise_annotations(X, symmetric=cfg['symmetric'])
+        except Exception as e:
+            return ['pairwise_annotations raised %s: %s on one example with annotations %s' % (type(e).__name__, str(e)[:80], ann)]
+        exp = torch.zeros(nA, nA, dtype=torch.int64)
+        for p in range(m):
+            for q in range(p + 1, m):
+                exp[ann[p], ann[q]] += 1
+                if cfg['symmetric'] and ann[p] != ann[q]:
+                    exp[ann[q], ann[p]] += 1
+        if tuple(y.shape) != tuple(exp.shape) or not torch.equal(y.long(), exp):
+            return ['one example with annotations %s, symmetric=%s: got %s, expected (pairs p<q counted once) %s' % (ann, cfg['symmetric'], y.tolist(), exp.tolist())]
+        return []
+
+    def post_env(self, b, a, outcome, cfg):
+        env = dict(_ann=b._ann, _m=b._m, symmetric=cfg['symmetric'])
+        m = b._m
+        n = ite(m >= 1, m - 1, 0) if O.is_sym(m) else max(m - 1, 0)
+        y0, y1 = b.y, a.y
+        return [('no-exception', not outcome.startswith('raise')),
+                ('y[a,b] += number of pairs p<q with (list[p], list[q]) = (a, b) (mirrored iff symmetric and distinct)',
+                 O.forall(y0.shape, lambda p, q: O.eq(y1[p, q], y0[p, q] + self.pair_sum(env, n, p, q))))]
+
+
+class SpacingExamplePairs(PairwiseExamplePairs):
+    """C18 (pair enumeration of pairwise_annotations_spacing): for the (annotation, start, end) list of one example
+    (any length m) the two nested loops add to y[a, b, d] exactly the number of pairs of list positions p < q < m whose
+    left member (smaller start) has annotation a, right member b, and gap (start of right - end of left) d with
+    0 <= d < max_distance - mirrored iff symmetric and the annotations differ; every pair once, overlapping or too
+    distant pairs contribute nothing."""
+    qualname = 'tangermeme.annotate.pairwise_annotations_spacing'
+    key = 'tangermeme.annotate.pairwise_annotations_spacing#example-pairs'
+    stmt_block = ('for i, (idx0, start0, end0) in enumerate(annotations', 1)
+
+    def make_env(self, cfg, A):
+        from vf.values import StackList
+        nA = A.dim('nA', 1)
+        D = A.dim('max_distance', 1)
+        m = A.dim('m', 0)
+        ann = A.tensor('ann', 1, 'int', shape=[m])
+        st = A.tensor('st', 1, 'int', shape=[m])
+        en = A.tensor('en', 1, 'int', shape=[m])
+        A.assume(O.forall_hyp([m], lambda p: And(ann[p] >= 0, ann[p] < nA, st[p] >= 0, st[p] < en[p])))
+        y = A.tensor('y', 3, 'int', lib='np', shape=[nA, nA, D])
+        return dict(y=y, annotations=StackList(m, [ann, st, en], 'tuple'), symmetric=cfg['symmetric'], max_distance=D,
+                    _ann=ann, _st=st, _en=en, _m=m)
+
+    @staticmethod
+    def inc(env, p, q, a, b, d):
+        ann, st, en = env['_ann'], env['_st'], env['_en']
+        D = env['max_distance']
+        left_first = st.elem(p) < st.elem(q)
+        li, ri = ite(left_first, ann.elem(p), ann.elem(q)), ite(left_first, ann.elem(q), ann.elem(p))
+        dd = ite(left_first, st.elem(q) - en.elem(p), st.elem(p) - en.elem(q))
+        ok = And(0 <= dd, dd < D, O.eq(d, dd))
+        v = ite(And(ok, O.eq(a, li), O.eq(b, ri)), 1, 0)
+        if env['symmetric'] is True:
+            v = v + ite(And(ok, O.ne(li, ri), O.eq(a, ri), O.eq(b, li)), 1, 0)
+        return v
+
+    def replay_fragment(self, cfg, st):
+        import torch
+        from tangermeme.annotate import pairwise_annotations_spacing
+        m = int(st.get('_m') or 0)
+        cols = [st.get('_ann') or [], st.get('_st') or [], st.get('_en') or []]
+        if m < 1 or any(len(c) != m for c in cols):
+            return []
+        ann = [abs(int(v)) % 4 for v in cols[0]]
+        s_ = [abs(int(v)) % 12 for v in cols[1]]
+        e_ = [s + 1 + abs(int(e) - int(s0) - 1) % 5 for s, e, s0 in zip(s_, cols[2], cols[1])]
+        D = max(1, min(int(st.get('max_distance') or 1), 12))
+        nA = max(ann) + 1
+        X = torch.tensor([[0, a, s, e] for a, s, e in zip(ann, s_, e_)], dtype=torch.int64)
+        try:
+            y = pairwise_annotations_spacing(X, max_distance=D, dtype=torch.int64, symmetric=cfg['symmetric'])
+        except Exception as e:
+            return ['pairwise_annotations_spacing raised %s: %s on rows %s, max_distance=%d' % (type(e).__name__, str(e)[:80], X.tolist(), D)]
+        exp = torch.zeros(nA, nA, D, dtype=torch.int64)
+        for p in range(m):
+            for q in range(p + 1, m):
+                lf = s_[p] < s_[q]
+                li, ri = (ann[p], ann[q]) if lf else (ann[q], ann[p])
+                d = (s_[q] - e_[p]) if lf else (s_[p] - e_[q])
+                if 0 <= d < D:
+                    exp[li, ri, d] += 1
+                    if cfg['symmetric'] and li != ri:
+                        exp[ri, li, d] += 1
+        if tuple(y.shape) != tuple(exp.shape) or not torch.equal(y, exp):
+            return ['rows %s, max_distance=%d, symmetric=%s: got nonzero entries %s, expected (each pair once) %s' % (
+                X.tolist(), D, cfg['symmetric'], [(i, int(y[tuple(i)])) for i in y.nonzero().tolist()], [(i, int(exp[tuple(i)])) for i in exp.nonzero().tolist()])]
+        return []
+
+    def post_env(self, b, a, outcome, cfg):
+        env = dict(_ann=b._ann, _st=b._st, _en=b._en, _m=b._m, symmetric=cfg['symmetric'], max_distance=b.max_distance)
+        m = b._m
+        n = ite(m >= 1, m - 1, 0) if O.is_sym(m) else max(m - 1, 0)
+        y0, y1 = b.y, a.y
+        return [('no-exception', not outcome.startswith('raise')),
+                ('y[a,b,d] += number of pairs p<q with left annotation a, right annotation b, gap d in [0, max_distance) (mirrored iff symmetric and distinct)',
+                 O.forall(y0.shape, lambda p, q, d: O.eq(y1[p, q, d], y0[p, q, d] + self.pair_sum(env, n, p, q, d))))]
+
+
 def register(world):
     from contracts.utils_c import ValidateInput
     if 'tangermeme.utils._validate_input' not in world.contracts:
         world.register(ValidateInput())
     world.register(CountAnnotations())
     world.register_fragment(SpacingPairBody())
+    world.register_fragment(PairwiseExamplePairs())
+    world.register_fragment(SpacingExamplePairs())
